@@ -129,6 +129,12 @@ def check_split(s, nl, sepname, keep_empty, max_split, skip_none, rec):
             p = part.pos_end if part.pos_end is not None else part.pos
             if not isinstance(p, int) or not (lo <= p <= hi):
                 return 'empty part %d has no valid position (pos=%r pos_end=%r)' % (pi, part.pos, part.pos_end)
+            if len(list(part)) == 0 and not (isinstance(part.pos, int) and isinstance(part.pos_end, int)
+                                             and part.pos == part.pos_end):
+                # an empty part is a zero-width list sitting at its separator: both ends are set and equal
+                # (seed C18-n: a start position of 0 treated as "not given")
+                return 'empty part %d is not a zero-width list with a position (pos=%r pos_end=%r)' % (
+                    pi, part.pos, part.pos_end)
             spans.append((p, p))
     # children: every original non-chars node exactly once, in order
     on = [o for o in orig if not o.isNodeType(N.LatexCharsNode)]
